@@ -14,6 +14,7 @@ pub struct MarkdownEventsReader {
     blocks_stack: Vec<DocumentBlock>,
     blocks: DocumentBlocks,
     line_starts: Vec<usize>,
+    content: String,
     metadata_block: bool,
     html_block: bool,
     metadata: Option<String>,
@@ -27,6 +28,7 @@ impl MarkdownEventsReader {
             blocks_stack: Vec::new(),
             blocks: Vec::new(),
             line_starts: Vec::new(),
+            content: String::new(),
             metadata_block: false,
             html_block: false,
             metadata: None,
@@ -54,6 +56,7 @@ impl MarkdownEventsReader {
         )
         .into_offset_iter();
         self.line_starts = line_starts(content);
+        self.content = content.to_string();
 
         while let Some((event, range)) = iter.next() {
             match event {
@@ -353,28 +356,36 @@ impl MarkdownEventsReader {
 
     fn to_inline_range(&self, range: Range<usize>) -> InlineRange {
         let mut start = 0;
-        let mut start_char = 0;
+        let mut start_from = 0;
         let mut end = 0;
-        let mut end_char = 0;
+        let mut end_from = 0;
 
         for (line, &line_start) in self.line_starts.iter().enumerate() {
             if line_start <= range.start {
                 start = line;
-                start_char = range.start - line_start;
+                start_from = line_start;
             }
             if line_start <= range.end {
                 end = line;
-                end_char = range.end - line_start;
+                end_from = line_start;
             }
         }
 
         Position {
             line: start,
-            character: start_char,
+            character: self.utf16_len(start_from, range.start),
         }..Position {
             line: end,
-            character: end_char,
+            character: self.utf16_len(end_from, range.end),
         }
+    }
+
+    // LSP clients count characters in UTF-16 code units
+    fn utf16_len(&self, from: usize, to: usize) -> usize {
+        self.content
+            .get(from..to)
+            .map(|text| text.encode_utf16().count())
+            .unwrap_or(to - from)
     }
 
     fn to_line_range(&self, range: Range<usize>) -> LineRange {
